@@ -67,8 +67,8 @@ def _check_main(run, P):
     run.rule("C12.lastuse", "last-use table covers every statement and variable; "
              "release at last use is suppressed inside loops and for persistent "
              "variables", minimum=5)
-    run.rule("C12.visitors", "type-visitor member loops never leave the loop early",
-             minimum=2)
+    run.rule("C12.visitors", "type-visitor member loops never leave the loop early; every "
+             "visit_* method has a name the dispatcher forms", minimum=17)
     run.rule("C12.fresh", "inside a loop of the Fortran generator no value is used "
              "that is only ever computed inside a different loop (a stale left-over "
              "of the last iteration of that loop)", minimum=15)
@@ -547,7 +547,47 @@ def _lastuse(run, P):
                why="released before the statement's own code the operands are gone")
 
 
+def reachable_visitors(run, P, rule):
+    """Every visit_* method of a type visitor carries a name the dispatcher can form."""
+    m = P.module("dagrt.codegen.fortran")
+    base = m.classes.get("TypeVisitor")
+    tb = m.classes.get("TypeBase")
+    if base is None or tb is None or "rec" not in base.methods:
+        raise AnalysisError("fortran.TypeVisitor.rec / TypeBase not found")
+    rec = base.methods["rec"]
+    types = [c for c in P.subclasses(tb) if c is not tb]
+    src = ast.unparse(rec.node)
+    t = rec.arg(0)
+    if f"'visit_' + type({t}).__name__" in src:
+        names = {"visit_" + c.name for c in types}
+    else:
+        # dispatch through a class attribute that holds the method name
+        attrs = [x.attr for x in ast.walk(rec.node) if isinstance(x, ast.Attribute)
+                 and dotted(x.value) == t]
+        names = set()
+        for a_ in attrs:
+            vals = [c.attrs.get(a_) for c in types]
+            if vals and all(isinstance(v, ast.Constant) and isinstance(v.value, str) for v in vals):
+                names = {v.value for v in vals}
+        if not names:
+            raise AnalysisError("TypeVisitor.rec: how the handler name is formed is not recognised")
+    n = 0
+    for c in sorted(P.subclasses(base), key=lambda c: c.name):
+        for name, f in sorted(c.methods.items()):
+            if not name.startswith("visit_") or f.cls is not c:
+                continue
+            n += 1
+            run.ob(rule, f, f.node, name in names,
+                   construct=f"{c.name}.{name} is a name the dispatcher forms "
+                             f"({len(names)} handler names)",
+                   why="a handler under a name that is never looked up is dead: the inherited "
+                       "handler (often a no-op) runs instead, silently")
+    if n < 15:
+        raise AnalysisError(f"only {n} visit_* methods found")
+
+
 def _visitors(run, P):
+    reachable_visitors(run, P, "C12.visitors")
     m = P.module("dagrt.codegen.fortran")
     n = 0
     for c in m.classes.values():
